@@ -49,6 +49,22 @@ CLAIMED = {
         'is_bitfield, private are inputs); ASCII identifiers; single namespace without includes for the namespace-prefix '
         'case; platform-width unsigned types (guint, gulong, gsize) are emitted as written and not range-checked.',
    ref='DESIGN.md §4 C13'),
+ 'C08': dict(
+   technique='Coq proof that the giroffsets.c layout algorithm (GI_ALIGN translated from source) is the least-offset C ABI + 3-way correspondence model / real g-ir-compiler / gcc',
+   text='Theorems (Coq, axiom-free) over a model of giroffsets.c whose GI_ALIGN is translated from the macro text and '
+        'whose platform sizes come from a probe compiled against the current sources: for any number of members of '
+        'known size with power-of-two alignments the computed offsets are admissible, pointwise least, non-overlapping, '
+        'the alignment is the largest member alignment and the size the least covering multiple (C08_struct_is_abi, '
+        'C08_no_overlap, C08_union_is_abi, C08_nested_struct); a member of unknown size makes the structure unknown and '
+        'marks it and all later fields unknown (C08_unknown_propagates); the enumeration storage chosen represents every '
+        'value in the 64-bit range (C08_enum_width_fits). Tie: every generated declaration is compiled by the real '
+        'g-ir-compiler built from /repo, read back through the repository API and compared with the model (in Coq) '
+        'and with gcc on the same declaration. That the model\'s rule is gcc\'s rule for enumerations is tested, not '
+        'proved. Two defects found and fixed.',
+   note='Trusted: Coq kernel+VM; translate/cexpr.py; cshim (miniglib headers, GLib 2.74 runtime); libffi; gcc as the '
+        'ABI oracle; only acyclic declarations; unknown-size members cannot be produced through g-ir-compiler (its '
+        'warning is fatal), so that clause is tied by reading only; callbacks in unions excluded (finding F14).',
+   ref='DESIGN.md §4 C08'),
 }
 
 PLANNED = {}
